@@ -19,6 +19,13 @@ def run(prop, quick=(8, 40), thorough=(16, 500), extra=None, require=(), maxstmt
             R.inconc("worker %s: %s" % (job["seed"], err))
             continue
         R.merge(res[prop])
+    if prop == "C06":
+        fam = [dict(seed="%d/C06/idx/%d" % (common.seed(), s), n=12 if tier == "quick" else 60) for s in range(2 if tier == "quick" else 8)]
+        for job, res, err in shard.run_jobs("vf.progwork", "index_family", fam, timeout=900):
+            if err:
+                R.inconc("array index family: %s" % err[-300:])
+            else:
+                R.merge(res[prop])
     if prop in ("C01", "C04"):
         for job, res, err in shard.run_jobs("vf.progwork", "suite_under_monitors", [dict(props=[prop])], timeout=900):
             if err:
